@@ -15,14 +15,16 @@ def models(quick):
                          comps=[1, 2, 3, 20], invariants=INVS),
                 ModelRun("C04_hiy_n3", letters=[6, 7, 19], maxlen=2, maxn=3, ks=[1, 3], engines=["kd"],
                          comps=[1, 7, 25], invariants=INVS)]
-    return [ModelRun("C04_acd", letters=[0, 1, 2], maxlen=3, maxn=2, ks=[1, 2, 3], engines=["hash", "kd"],
-                     comps=COMPS, invariants=INVS),
+    # (hash_based enumerates the 20-letter edit ball on the real code: radius 3 costs seconds per query, so k <= 2 there)
+    return [ModelRun("C04_acd", letters=[0, 1, 2], maxlen=3, maxn=2, ks=[1, 2, 3], engines=["kd"], comps=COMPS, invariants=INVS),
+            ModelRun("C04_acd_hash", letters=[0, 1, 2], maxlen=3, maxn=2, ks=[1, 2], engines=["hash"], invariants=INVS),
+            ModelRun("C04_hash_k3", letters=[0, 1], maxlen=2, maxn=2, ks=[3], engines=["hash"], invariants=INVS),
             ModelRun("C04_hiy", letters=[6, 7, 19], maxlen=3, maxn=2, ks=[1, 2, 3, 4], engines=["kd"],
                      comps=COMPS, invariants=INVS),
             ModelRun("C04_ac_n3", letters=[0, 1], maxlen=3, maxn=3, ks=[1, 2], engines=["hash", "kd"],
                      comps=[1, 2], invariants=INVS),
-            ModelRun("C04_ac_l4", letters=[0, 2], maxlen=4, maxn=2, ks=[1, 2, 3], engines=["hash", "kd"],
-                     comps=[1, 2, 3], invariants=INVS)]
+            ModelRun("C04_ac_l4", letters=[0, 2], maxlen=4, maxn=2, ks=[1, 2, 3], engines=["kd"], comps=[1, 2, 3], invariants=INVS),
+            ModelRun("C04_ac_l4h", letters=[0, 2], maxlen=4, maxn=2, ks=[1, 2], engines=["hash"], invariants=INVS)]
 
 
 def run(ctx):
@@ -36,7 +38,7 @@ def run(ctx):
     for mr in models(ctx.quick):
         res = npx.run_model(ctx, mr, coverage=not ctx.quick)
         thin = (lambda inp: 4 if (inp["engine"] == "hash" and inp["k"] >= 2) else 1) if ctx.quick else \
-               (lambda inp: 6 if (inp["engine"] == "hash" and inp["k"] >= 3) else 1)
+               (lambda inp: 8 if (inp["engine"] == "hash" and inp["k"] >= 3) else (2 if inp["engine"] == "hash" and inp["k"] == 2 else 1))
         npx.replay_emitted(ctx, res, [nc.AA], thin=thin, budget=None if ctx.quick else 60000)
     ctx.exhaustive = True
     sessions, sid = [], 0
